@@ -6,7 +6,7 @@ src/PolarGrid/polargrid.cpp.  Shapes: ntheta CONCRETE per job (division/modulo b
 back end, DESIGN 2.6), nr and the split SYMBOLIC (2 <= nr <= 2^15, 0 <= split <= nr), node indices and the unwrapped angular
 index SYMBOLIC over the full int range.  => bounded in ntheta (list in the evidence), unbounded in everything else."""
 import re
-from vlib import Src, Rules, Job, ExtractError, common_body_rewrites, sha, fn_to_macro
+from vlib import Src, Rules, Job, ExtractError, common_body_rewrites, sha, fn_to_macro, match_close
 import units
 
 REF = "src/PolarGrid/polargrid.cpp"
@@ -91,7 +91,7 @@ void harness(void) {
 
 
 def build_jobs(tier, seed):
-    return [job_for(nt) for nt in (NTHETAS_QUICK if tier == "quick" else NTHETAS_THOROUGH)]
+    return [split_job(nt) for nt in (4, 6, 8, 12, 64)] + [split_job(4, "nr==2")] + [job_for(nt) for nt in (NTHETAS_QUICK if tier == "quick" else NTHETAS_THOROUGH)]
 
 
 EXPLANATION = (
@@ -120,3 +120,67 @@ def run(tier, seed, work):
 
 def replay(path):
     return 0
+
+
+# ---- PolarGrid::initializeLineSplitting: contract of the circle/radial split (unbounded nr: loop contract) ---------------
+def split_job(nt=8, domain="nr>=3"):
+    rules, hashes = Rules("C17"), {}
+    f = Src.get(REF).function("PolarGrid::initializeLineSplitting", must_params=["splitting_radius"])
+    hashes["PolarGrid::initializeLineSplitting"] = sha(f["body"])
+    b = f["body"]
+    b = rules.sub("C17.optional", r"\bsplitting_radius\.has_value\(\)", "splitting_radius_has", b, expect=1)
+    b = rules.sub("C17.optional", r"\bsplitting_radius\.value\(\)", "splitting_radius_val", b, expect="+")
+    b = rules.sub("C17.front_back", r"\bradii_\.front\(\)", "radii_[0]", b, expect=1)
+    b = rules.sub("C17.front_back", r"\bradii_\.back\(\)", "radii_[nr() - 1]", b, expect=1)
+    # std::lower_bound over the sorted radii: first index k with radii_[k] >= value (k == nr() <=> end()); contract, libstdc++ trusted
+    b = rules.sub("C17.lower_bound", r"auto\s+it\s*=\s*std::lower_bound\(radii_\.begin\(\),\s*radii_\.end\(\),\s*splitting_radius_val\);",
+                  "const int it = LOWER_BOUND(splitting_radius_val);", b, expect=1)
+    b = rules.sub("C17.lower_bound", r"it\s*!=\s*radii_\.end\(\)", "it != nr()", b, expect=1)
+    b = rules.sub("C17.lower_bound", r"std::distance\(radii_\.begin\(\),\s*it\)", "it", b, expect=1)
+    b = common_body_rewrites(b, rules, "I")
+
+    # loop contract of the automatic search loop (keyed: first `for` of the body)
+    inv = ("\n        __CPROVER_assigns(i_r, number_smoother_circles_)\n"
+           "        __CPROVER_loop_invariant(2 <= i_r && (i_r <= nr_ - 2 || nr_ < 4) && number_smoother_circles_ == 2)\n"
+           "        __CPROVER_decreases(nr_ - i_r)\n")
+    m = re.search(r"\bfor\s*\(", b)
+    pc = match_close(b, m.end() - 1, "(", ")")
+    b = b[:pc + 1] + inv + b[pc + 1:]
+    if re.search(r"std::|\bauto\b", b):
+        raise ExtractError("unhandled construct in initializeLineSplitting: %s" % re.findall(r".*(?:std::|auto).*", b)[:2])
+    # the coordinates only decide WHERE the search loop breaks; they are modelled as an arbitrary ordered sort (64-bit integers)
+    text = "#define double float\n" + units.PRELUDE_I + r"""
+#define M_PI 3.14159265f
+static int nr_, ntheta_; static double radii_[32768];
+static int number_smoother_circles_, length_smoother_radial_, number_circular_smoother_nodes_, number_radial_smoother_nodes_;
+static double smoother_splitting_radius_;
+static _Bool splitting_radius_has; static double splitting_radius_val;
+static int nr(void) { return nr_; } static int ntheta(void) { return ntheta_; }
+static int numberOfNodes(void) { return nr_ * ntheta_; }
+static int numberSmootherCircles(void) { return number_smoother_circles_; } static int lengthSmootherRadial(void) { return length_smoother_radial_; }
+static int numberCircularSmootherNodes(void) { return number_circular_smoother_nodes_; } static int numberRadialSmootherNodes(void) { return number_radial_smoother_nodes_; }
+double nondet_double(void);
+static double radius(const int i) { __CPROVER_assert(0 <= i && i < nr_, "source assert: r_index within radii_"); return nondet_double(); }   /* arbitrary coordinate */
+static int LOWER_BOUND(double v) { int k = nondet_int(); __CPROVER_assume(0 <= k && k <= nr_); return k; }
+static void initializeLineSplitting__impl(void)
+{""" + b + r"""}
+void harness(void) {
+    nr_ = nondet_int(); ntheta_ = @NT@; splitting_radius_has = nondet_bool(); splitting_radius_val = nondet_double();
+    __CPROVER_assume(2 <= nr_ && nr_ <= 32768 && 2 <= ntheta_ && ntheta_ <= 32768);     /* checkParameters: at least two radii */
+    __CPROVER_assume(@DOMAIN@);                                                                  /* case split */
+    initializeLineSplitting__impl();
+    __CPROVER_assert(number_smoother_circles_ + length_smoother_radial_ == nr_, "OBL:split_lengths_add_up_to_nr");
+    __CPROVER_assert(0 <= number_smoother_circles_ && number_smoother_circles_ <= nr_, "OBL:split_position_in_range");
+    __CPROVER_assert(number_circular_smoother_nodes_ == number_smoother_circles_ * ntheta_ && number_radial_smoother_nodes_ == length_smoother_radial_ * ntheta_, "OBL:split_node_counts");
+    /* automatic split: what every smoother assumes (assert(numberSmootherCircles >= 2), assert(lengthSmootherRadial >= 3)) */
+    __CPROVER_assert(splitting_radius_has || nr_ < 5 || (number_smoother_circles_ >= 2 && length_smoother_radial_ >= 3), "OBL:automatic_split_gives_two_circles_and_three_radial_nodes[C20]");
+    __CPROVER_assert(splitting_radius_has || nr_ <= 5 || number_smoother_circles_ >= 3, "OBL:automatic_split_gives_three_circles_when_nr_exceeds_5[C20]");
+    __CPROVER_assert(0, "COVER:reached_end");
+}
+"""
+    text = text.replace("@NT@", str(nt)).replace("@DOMAIN@", "nr_ >= 3" if domain == "nr>=3" else "nr_ == 2")
+    j = Job("C17.split[ntheta=%d,%s]" % (nt, domain), text, "M", loop_contracts=True, timeout=600, unwind=8,
+            bounded="unwind 0: loop closed by its loop contract for every nr <= 32768; ntheta fixed = %d (the node-count identity nsc*ntheta + lsr*ntheta == nr*ntheta is a symbolic-multiplier fact no back end finishes)" % nt,
+            functions=["PolarGrid::initializeLineSplitting"], covers={"COVER:reached_end"})
+    j.rules, j.hashes = rules, hashes
+    return j
